@@ -372,6 +372,62 @@ pub fn check_history(opsv: &[Op], st: Option<&mut Stats>) -> Check {
     r
 }
 
+/// The same canonical-form claims when operands cross environments: operation i runs in
+/// environment sel[i] % 2 and takes its operands from one common pool, whichever
+/// environment produced them ("in the same or in different environments").  Only what C02
+/// states is checked here (==, hash, ordered, reduced) - no pointer identity.
+/// `clean` is excluded: it looks its argument up in the environment's own table.
+pub fn check_history_cross(opsv: &[Op], sel: &[u8]) -> Check {
+    let case = json!({"kind": "cross-history", "ops": ops::ops_to_json(opsv), "env": sel});
+    if !ops::well_formed(opsv) || sel.len() < opsv.len() {
+        return Err(Violation::new("HARNESS: malformed history", case));
+    }
+    guarded(&case.clone(), || {
+        let ids: Vec<usize> = (0..ops::K).collect();
+        let envs: [BDDEnv<usize>; 2] = [BDDEnv::new(), BDDEnv::new()];
+        let mut pool: Vec<B> = Vec::new();
+        let mut tabs: Vec<TT> = Vec::new();
+        for (i, op) in opsv.iter().enumerate() {
+            let env = &envs[(sel[i] % 2) as usize];
+            let op2 = match op {
+                Op::Clean(a) => Op::Not(*a),
+                o => o.clone(),
+            };
+            let r = match ops::apply(env, &op2, &pool) {
+                Out::Diagram(d) => d,
+                Out::Pair(..) => Rc::clone(&pool[op2.operands()[0]]),
+            };
+            let what = format!("step {} ({} in environment {})", i, op2.name(), sel[i] % 2);
+            let t = plain::table_usize(&r, &ids).map_err(|e| Violation::new(format!("{}: {}", what, e), case.clone()))?;
+            canonical(&what, &r, &t, &ids, &case)?;
+            pool.push(r);
+            tabs.push(t);
+        }
+        for i in 0..pool.len() {
+            for j in (i + 1)..pool.len() {
+                let same_fun = tabs[i] == tabs[j];
+                let eq = pool[i] == pool[j];
+                if same_fun != eq {
+                    return Err(Violation::new(
+                        format!(
+                            "results {} and {} (operands crossing environments) denote {} functions but compare {}",
+                            i,
+                            j,
+                            if same_fun { "the same" } else { "different" },
+                            if eq { "equal" } else { "unequal" }
+                        ),
+                        case.clone(),
+                    ));
+                }
+                if eq && pool[i].get_hash() != pool[j].get_hash() {
+                    return Err(Violation::new(format!("results {} and {} are equal but hash differently", i, j), case.clone()));
+                }
+            }
+        }
+        Ok(())
+    })
+}
+
 fn record_history(opsv: &[Op], st: &mut Stats) {
     st.eval();
     let mut kinds: Vec<String> = opsv.iter().map(|o| o.name()).collect();
@@ -449,6 +505,17 @@ pub fn run(ctx: &mut Ctx) -> Result<(), Violation> {
         check_history(&opsv, Some(st))
     });
     ctx.stage("random-histories-two-envs", false, r)?;
+
+    let cases = ctx.tier.pick(6_000, 200_000);
+    let r = par_random(ctx, "cross-env-histories", cases, 400, |tape, st| {
+        let mut t = Tape::new(tape);
+        let opsv = ops::gen_ops(&mut t, max_ops);
+        let sel: Vec<u8> = (0..opsv.len()).map(|_| t.byte()).collect();
+        record_history(&opsv, st);
+        st.class("operands-crossing-environments");
+        check_history_cross(&opsv, &sel)
+    });
+    ctx.stage("random-histories-operands-crossing-environments", false, r)?;
     Ok(())
 }
 
@@ -468,6 +535,13 @@ pub fn replay(case: &Value) -> Check {
             Some(o) => check_history(&o, None),
             None => Err(Violation::new("unreadable replay case", case.clone())),
         },
+        Some("cross-history") => {
+            let sel: Option<Vec<u8>> = case["env"].as_array().map(|a| a.iter().filter_map(|x| x.as_u64().map(|u| u as u8)).collect());
+            match (ops::ops_from_json(&case["ops"]), sel) {
+                (Some(o), Some(s)) => check_history_cross(&o, &s),
+                _ => Err(Violation::new("unreadable replay case", case.clone())),
+            }
+        }
         _ => Err(Violation::new("unreadable replay case", case.clone())),
     }
 }
